@@ -16,7 +16,17 @@ VPOOL = ["éü\n\t\"q\\ \x01", 3.25, [1, [2, {"z": None}]], {"k": "v", "n": [1, 
          "\U0001F600 astral", [], {}, -17, "plain", "line\u2028sep \u2029para \u0085nel \r\n", {"nested \u2028": ["a \u0085 ", 1]}]
 
 
+_REFNODE = []
+
+
 def value_of(tok):
+    if tok == "ref":
+        # an attribute whose value is itself a tree node (a cross reference): plain data for the dictionary exporter
+        if not _REFNODE:
+            from anytree import AnyNode
+
+            _REFNODE.append(AnyNode(id="referenced"))
+        return _REFNODE[0]
     if tok == "x":
         return 42
     if tok == "s":
@@ -129,7 +139,8 @@ def project_import(root, cands):
 
 
 JSON_KW = ({}, {"indent": 2}, {"sort_keys": True}, {"ensure_ascii": False}, {"separators": (",", ":")},
-           {"indent": 1, "sort_keys": True, "ensure_ascii": False}, {"indent": None, "separators": (", ", ": ")})
+           {"indent": 1, "sort_keys": True, "ensure_ascii": False}, {"indent": None, "separators": (", ", ": ")}, {"indent": None},
+           {"indent": 0}, {"sort_keys": False, "ensure_ascii": True, "indent": 4})
 
 
 def perform_dict(q, par, ch, idx):
@@ -152,6 +163,7 @@ def perform_dict(q, par, ch, idx):
     jml = None if q["jml"] == NOMAX else q["jml"]
     dictcls = OrderedDict if idx % 2 else dict
     exp = q["d"]
+    jsonable = "ref" not in cands
     for family in families_for(attrs):
         objs = make_nodes(family, par, ch, attrs)
         if N.snapshot() != (par, ch):
@@ -175,6 +187,8 @@ def perform_dict(q, par, ch, idx):
         if state_of(objs) != before:
             bad.append({"what": "export modified the tree", "family": family, "prop": "C10", "direct": True})
         # ---- JsonExporter (same tree): the text is exactly dumps(dictionary) under the keyword options
+        if not jsonable:
+            continue
         if family != "node":      # Node stores `name` last in its __dict__: text order differs from the token order, covered by sort_keys below
             kw = JSON_KW[idx % len(JSON_KW)]
         else:
@@ -198,9 +212,21 @@ def perform_dict(q, par, ch, idx):
             else:
                 # ---- JsonImporter: same shape, order and values
                 n += 1
-                for how in ("import_", "read"):
+                for how in ("import_", "read", "import_ again"):
                     imp = JsonImporter() if idx % 2 else JsonImporter(dictimporter=DictImporter(nodecls=N.UserAttrs))
-                    root = imp.import_(text) if how == "import_" else imp.read(io.StringIO(text))
+                    root = imp.import_(text) if how != "read" else imp.read(io.StringIO(text))
+                    if how == "import_":
+                        # every import is independent: values of an imported tree may be modified in place afterwards
+                        stack = [root]
+                        while stack:
+                            x = stack.pop()
+                            stack.extend(x.children)
+                            for v in list(x.__dict__.values()):
+                                if isinstance(v, list):
+                                    v.append("mutated-after-import")
+                                elif isinstance(v, dict):
+                                    v["mutated-after-import"] = True
+                        continue
                     proj = project_import(root, cands)
                     want = _import_expect(jexp)
                     if proj["p"] != want["p"] or proj["attrs"] != want["attrs"] or proj["classes"] != ["AnyNode" if idx % 2 else "UserAttrs"]:
@@ -211,10 +237,12 @@ def perform_dict(q, par, ch, idx):
             bad.append({"what": "json export modified the tree", "family": family, "prop": "C11", "direct": True})
     # ---- DictImporter on the exported dictionary
     data_names = _all_have_name(exp)
-    for nodecls_name in ("AnyNode", "UserAttrs") + (("Node",) if data_names else ()):
-        nodecls = {"AnyNode": AnyNode, "Node": Node, "UserAttrs": N.UserAttrs}[nodecls_name]
+    for nodecls_name in ("AnyNode", "UserAttrs", "Adv_falsy_mixin", "Adv_zerolen_mixin") + (("Node",) if data_names else ()):
+        nodecls = {"AnyNode": AnyNode, "Node": Node, "UserAttrs": N.UserAttrs, "Adv_falsy_mixin": N.Adv_falsy_mixin,
+                   "Adv_zerolen_mixin": N.Adv_zerolen_mixin}[nodecls_name]
         data = render_dict(exp, dictcls)
-        keep = copy.deepcopy(data)
+        keep = derender_dict(data, cands)       # (token space: a deep copy would replace node-valued attributes by other objects)
+        keep_types = _types_of(data)
         n += 1
         try:
             root = DictImporter(nodecls=nodecls).import_(data)
@@ -222,7 +250,7 @@ def perform_dict(q, par, ch, idx):
             want = _import_expect(exp)
             if proj["p"] != want["p"] or proj["attrs"] != want["attrs"] or proj["classes"] != [nodecls_name]:
                 bad.append({"what": "DictImporter.import_", "nodecls": nodecls_name, "prop": "C10", "obs_imp": proj, "d": exp})
-            if data != keep or not _same_types(data, keep):
+            if derender_dict(data, cands) != keep or _types_of(data) != keep_types:
                 bad.append({"what": "import_ modified its argument", "nodecls": nodecls_name, "prop": "C10", "direct": True})
             back = DictExporter().export(root)
             if norm_dict(derender_dict(back, cands)) != norm_dict(exp):
@@ -248,8 +276,8 @@ def _types_ok(d, dictcls):
     return type(d) is dictcls and all(_types_ok(c, dictcls) for c in d.get("children", []))
 
 
-def _same_types(a, b):
-    return type(a) is type(b)
+def _types_of(d):
+    return (type(d).__name__, [_types_of(c) for c in d.get("children", [])] if isinstance(d, dict) and isinstance(d.get("children", []), list) else None)
 
 
 def _all_have_name(d):
